@@ -5,6 +5,7 @@ import (
 	"fmt"
 	"math/rand"
 	"os"
+	"sort"
 	"sync"
 	"sync/atomic"
 	"time"
@@ -29,6 +30,9 @@ const (
 	proposalTimeoutRequest     = 100 * time.Millisecond
 	proposalRequestInterval    = 20 * time.Millisecond
 	proposalMinProposerWait    = 200 * time.Millisecond
+	stuckWait                  = 400 * time.Millisecond // BallotStuckWait
+	stuckInterval              = 100 * time.Millisecond
+	stuckResolveAfter          = 300 * time.Millisecond // BallotStuckResolveAfter
 )
 
 var (
@@ -77,30 +81,34 @@ type link struct {
 
 // Net is one in-process network (one run).
 type Net struct {
-	cfg       Config
-	log       *evLog
-	networkID base.NetworkID
-	threshold base.Threshold
-	suf       base.Suffrage
-	locals    []base.LocalNode
-	names     []string
-	nodes     []*Node // nil at Byzantine indices
-	byz       map[int]*Byz
-	links     [][]*link
-	ctx       context.Context
-	cancel    func()
-	wg        sync.WaitGroup
-	calls     atomic.Int64 // outstanding Ballotbox.Vote calls
-	isolated  []atomic.Bool
-	extraOut  []atomic.Int64 // extra delay (ms) of a node's outgoing ballots
-	reqBlock  func(from, to int, point base.Point) bool
-	diverge   map[int]map[int64]time.Duration // node -> height -> extra processing time
-	validmu   sync.Mutex
-	valid     map[string]bool
-	vpmu      sync.Mutex
-	vpseen    map[string]bool
-	genesis   blockEntry
-	stat      struct {
+	cfg        Config
+	log        *evLog
+	networkID  base.NetworkID
+	threshold  base.Threshold
+	suf        base.Suffrage
+	locals     []base.LocalNode
+	names      []string
+	nodes      []*Node // nil at Byzantine indices
+	byz        map[int]*Byz
+	links      [][]*link
+	ctx        context.Context
+	cancel     func()
+	wg         sync.WaitGroup
+	calls      atomic.Int64 // outstanding Ballotbox.Vote calls
+	isolated   []atomic.Bool
+	extraOut   []atomic.Int64 // extra delay (ms) of a node's outgoing ballots
+	reqBlock   func(from, to int, point base.Point) bool
+	diverge    map[int]map[int64]time.Duration // node -> height -> extra processing time
+	validmu    sync.Mutex
+	valid      map[string]bool
+	vpmu       sync.Mutex
+	vpseen     map[string]bool
+	genesis    blockEntry
+	sufmu      sync.Mutex
+	expelled   map[base.Height][]base.Address
+	expelFacts map[string]string
+	fullCut    atomic.Bool // scenario x: the cut also covers the stream layer
+	stat       struct {
 		delivered, dropped, invalid, votedFalse atomic.Int64
 	}
 }
@@ -127,10 +135,51 @@ func (nt *Net) diverges(i int, h base.Height) (bool, time.Duration) {
 
 func (nt *Net) isByz(i int) bool { _, ok := nt.byz[i]; return ok }
 
-func (nt *Net) getSuffrage(base.Height) (base.Suffrage, bool, error) { return nt.suf, true, nil }
+// sufAt: the suffrage after block h = the genesis suffrage without the members expelled by the blocks up
+// to h (scenario x; the writer stub records the expels of a saved block)
+func (nt *Net) sufAt(h base.Height) base.Suffrage {
+	nt.sufmu.Lock()
+	defer nt.sufmu.Unlock()
+	if len(nt.expelled) < 1 {
+		return nt.suf
+	}
+	var nodes []base.Node
+	for _, n := range nt.suf.Nodes() {
+		out := false
+		for eh, addrs := range nt.expelled {
+			if eh > h {
+				continue
+			}
+			for _, a := range addrs {
+				if a.Equal(n.Address()) {
+					out = true
+				}
+			}
+		}
+		if !out {
+			nodes = append(nodes, n)
+		}
+	}
+	suf, err := isaac.NewSuffrage(nodes)
+	if err != nil {
+		return nt.suf
+	}
+	return suf
+}
 
-func (nt *Net) nodeInConsensusNodes(node base.Node, _ base.Height) (base.Suffrage, bool, error) {
-	return nt.suf, nt.suf.ExistsPublickey(node.Address(), node.Publickey()), nil
+func (nt *Net) noteExpelled(h base.Height, addrs []base.Address) {
+	nt.sufmu.Lock()
+	defer nt.sufmu.Unlock()
+	if _, ok := nt.expelled[h]; !ok {
+		nt.expelled[h] = addrs
+	}
+}
+
+func (nt *Net) getSuffrage(h base.Height) (base.Suffrage, bool, error) { return nt.sufAt(h), true, nil }
+
+func (nt *Net) nodeInConsensusNodes(node base.Node, h base.Height) (base.Suffrage, bool, error) {
+	suf := nt.sufAt(h)
+	return suf, suf.ExistsPublickey(node.Address(), node.Publickey()), nil
 }
 
 // reachable: may a ballot travel between i and j now (the gossip layer)
@@ -142,19 +191,21 @@ func (nt *Net) reachable(i, j int) bool {
 // layer); in scenario b only the gossip layer of the victim is cut, so that the others keep
 // getting the victim's proposals and go on without its ballots
 func (nt *Net) reachableReq(i, j int) bool {
-	return nt.cfg.Scenario == "b" || nt.reachable(i, j)
+	return (nt.cfg.Scenario == "b" && !nt.fullCut.Load()) || nt.reachable(i, j)
 }
 
 func newNet(cfg Config) (*Net, error) {
 	installHook()
 	nt := &Net{
-		cfg:       cfg,
-		log:       newEvLog(),
-		networkID: base.NetworkID(fmt.Sprintf("verif-isaac-%d", cfg.Seed)),
-		threshold: base.Threshold(67),
-		byz:       map[int]*Byz{},
-		valid:     map[string]bool{},
-		vpseen:    map[string]bool{},
+		cfg:        cfg,
+		log:        newEvLog(),
+		networkID:  base.NetworkID(fmt.Sprintf("verif-isaac-%d", cfg.Seed)),
+		threshold:  base.Threshold(67),
+		byz:        map[int]*Byz{},
+		valid:      map[string]bool{},
+		vpseen:     map[string]bool{},
+		expelled:   map[base.Height][]base.Address{},
+		expelFacts: map[string]string{},
 	}
 	nt.ctx, nt.cancel = context.WithCancel(context.Background())
 	rng := rand.New(rand.NewSource(cfg.Seed))
@@ -402,6 +453,7 @@ func stageName(s base.Stage) string {
 // factFields describes a ballot fact with small ids.
 func (nt *Net) factFields(e Ev, fact base.BallotFact) {
 	e["fact"] = nt.log.id("f", fact.Hash().String())
+	nt.factExpels(e, fact)
 	switch t := fact.(type) {
 	case isaac.SuffrageConfirmBallotFact:
 		e["kind"] = "sc"
@@ -435,6 +487,68 @@ func (nt *Net) factFields(e Ev, fact base.BallotFact) {
 	}
 }
 
+// expelFields: the members whose expel operations the ballot / voteproof carries
+func (nt *Net) expelFields(e Ev, v interface{}) {
+	w, ok := v.(base.HasExpels)
+	if !ok {
+		return
+	}
+	ops := w.Expels()
+	if len(ops) < 1 {
+		return
+	}
+	ex := []string{}
+	signs := map[string][]string{}
+	for _, op := range ops {
+		t := nt.indexOf(op.ExpelFact().Node())
+		if t < 0 {
+			continue
+		}
+		ex = append(ex, nt.name(t))
+		for _, sg := range op.NodeSigns() {
+			if j := nt.indexOf(sg.Node()); j >= 0 {
+				signs[nt.name(t)] = append(signs[nt.name(t)], nt.name(j))
+			}
+		}
+	}
+	sort.Strings(ex)
+	e["ex"] = ex
+	e["exsigns"] = signs
+}
+
+// factExpels: the members the expel facts of a ballot fact name
+func (nt *Net) factExpels(e Ev, fact base.BallotFact) {
+	w, ok := fact.(isaac.ExpelBallotFact)
+	if !ok || len(w.ExpelFacts()) < 1 {
+		return
+	}
+	fx := []string{}
+	for _, h := range w.ExpelFacts() {
+		fx = append(fx, nt.expelFactName(h))
+	}
+	sort.Strings(fx)
+	e["fx"] = fx
+}
+
+func (nt *Net) expelFactName(h util.Hash) string {
+	nt.sufmu.Lock()
+	defer nt.sufmu.Unlock()
+	if n, ok := nt.expelFacts[h.String()]; ok {
+		return n
+	}
+	return "?" + nt.log.id("xf", h.String())
+}
+
+func (nt *Net) noteExpelFact(op base.SuffrageExpelOperation) {
+	t := nt.indexOf(op.ExpelFact().Node())
+	if t < 0 {
+		return
+	}
+	nt.sufmu.Lock()
+	nt.expelFacts[op.ExpelFact().Hash().String()] = nt.name(t)
+	nt.sufmu.Unlock()
+}
+
 func (nt *Net) pointFields(e Ev, sp base.StagePoint) {
 	e["h"] = sp.Height().Int64()
 	e["r"] = sp.Round().Uint64()
@@ -452,5 +566,6 @@ func (nt *Net) bcastEvent(seq uint64, from int, bl base.Ballot, byz bool) {
 	if vp := bl.Voteproof(); vp != nil {
 		e["vp"] = nt.log.id("v", vp.ID())
 	}
+	nt.expelFields(e, bl)
 	nt.log.add(seq, e)
 }
